@@ -501,12 +501,13 @@ func (g *Gen) havocLocation(st *State, env *Env, loc string) error {
 	g.assumeKnownRef(st, v.ty.Go, nv)
 	tag := ""
 	if s, ok := x.(*ESel); ok {
-		bv, _ := env.eval(s.X)
-		base, _ := derefType(bv.ty.Go)
-		if stt, ok := base.Underlying().(*types.Struct); ok {
-			for i := 0; i < stt.NumFields(); i++ {
-				if stt.Field(i).Name() == s.F {
-					tag = g.fieldTag(base, i)
+		if bv, err := env.eval(s.X); err == nil && bv.ty != nil && bv.ty.Kind == "go" && bv.ty.Go != nil { // not pkg.Var
+			base, _ := derefType(bv.ty.Go)
+			if stt, ok := base.Underlying().(*types.Struct); ok {
+				for i := 0; i < stt.NumFields(); i++ {
+					if stt.Field(i).Name() == s.F {
+						tag = g.fieldTag(base, i)
+					}
 				}
 			}
 		}
